@@ -125,6 +125,11 @@ func genC01(tier string, run int, r *simcore.Rand) *harness.Plan {
 	canRestart := wantRestart && !hasType(root, "memory")
 	nops := r.Range(8, 60)
 	ops := genOps(r, nops, pool, specs, canRestart, weights)
+	for i := range ops {
+		if ops[i].Kind == "page" && r.Bool(0.25) {
+			ops[i] = sim.Op{Kind: "enumall"}
+		}
+	}
 	if len(cfg.Files) > 0 && r.Bool(0.8) {
 		// upload the file's blobs in dependency order (file blob last) at a
 		// seeded point, so the pack happens and the rest of the history runs
